@@ -137,6 +137,24 @@ func runOpPair(a *args, res *result) {
 			refreshOnEvict(res, kind)
 		}
 	}
+	// ---- a traversal, a writer parked inside its bucket and a Clear in between
+	if a.prop == "C07" || a.prop == "C03" || a.prop == "C04" || a.prop == "C13" {
+		tk := []string{"Map", "MapOf[int,val]", "MapOf[string,val]/const"}
+		if a.prop == "C03" {
+			tk = tk[:1]
+		} else if a.prop == "C04" {
+			tk = tk[1:]
+		}
+		for _, kind := range tk {
+			for _, w := range []string{"delete", "update"} {
+				unit++
+				if !a.mine(unit - 1) {
+					continue
+				}
+				traverseVsClear(res, kind, w, stuckCh)
+			}
+		}
+	}
 	vshim.SetTokenMode(false)
 	res.sample(map[string]any{"map_kinds": mapKinds, "cache_kinds": cacheKinds, "map_ops": len(mapPairOps()), "cache_ops": len(cachePairOps())})
 }
